@@ -1041,6 +1041,42 @@ fn main() {
         out
     });
 
+    // ---- phase E: region-local alternative-witness search (vgad::laws). For every region of the
+    // one-block SHA-256 circuit (quick: the first instances of every region name), every set of
+    // <= 3 lookup rows is answered with neighbouring rows of the actual table, gates are repaired
+    // through affine region cells, and each locally consistent alternative is replayed on the real
+    // circuit with the witness generation continuing from it.
+    {
+        let c = zbytes(ByteHash::Sha256, 3, "counter");
+        // quick: the last three instances of every region name (late rounds work on mixed state)
+        let per_kind = tier.pick(3usize, usize::MAX);
+        let mut ljobs: Vec<(String, (ZCase, u32, Vec<u32>))> = vec![];
+        if let Some((_, _, k)) = sizes.get(&c.key()).copied() {
+            if let Some(regs) = vcore::in_pool(1, || vgad::laws::regions_of(&c, k)) {
+                let mut seen: HashMap<String, usize> = HashMap::new();
+                let mut picked: Vec<u32> = vec![];
+                for (rid, name, _) in regs.iter().rev() {
+                    let e = seen.entry(name.clone()).or_default();
+                    *e += 1;
+                    if *e <= per_kind {
+                        picked.push(*rid);
+                    }
+                }
+                cx.note(format!("laws: {} regions of {} names in {}; {} explored", regs.len(), seen.len(), c.key(), picked.len()));
+                picked.sort();
+                for (ci, ch) in picked.chunks(1).enumerate() {
+                    ljobs.push((format!("{}#laws{ci}", c.key()), (c.clone(), k, ch.to_vec())));
+                }
+            }
+        }
+        let cfg = vgad::laws::Cfg::default();
+        cx.run_cases("laws", &ljobs, |(c, k, rids)| {
+            let mut out = CaseOut::batch();
+            vgad::laws::explore(c, *k, rids, &cfg, &mut out);
+            out
+        });
+    }
+
     // ---- timings (evidence only)
     {
         let t = sh.timings.lock().unwrap();
